@@ -55,6 +55,8 @@ type c05Spec struct {
 	OpID  string
 	Canon string
 	Kind  string
+	// for scans: what every later request of the scan must still carry
+	Prio, NRows uint32
 }
 
 func canonCells(cells []sim.Cell) string {
@@ -182,6 +184,9 @@ func (g *c05Gen) genGet(ctx context.Context, skipBatch bool) (hrpc.Call, c05Spec
 	maxv := uint32(1)
 	if r.Intn(3) == 0 {
 		maxv = wide32(r, uint32(2+r.Intn(5)))
+		if r.Intn(6) == 0 {
+			maxv = 0 // below the default of 1: must still be sent
+		}
 		opts = append(opts, hrpc.MaxVersions(maxv))
 	}
 	limit, offset := uint32(math.MaxInt32), uint32(0)
@@ -228,7 +233,7 @@ func (g *c05Gen) genGet(ctx context.Context, skipBatch bool) (hrpc.Call, c05Spec
 	}
 	canon := fmt.Sprintf("get row=%q cols=%s tr=[%d,%d) maxv=%d limit=%d offset=%d cache=%v filter=%s prio=%d cons=%s exists=false",
 		row, canonFamilies(fams), from, to, maxv, limit, offset, cache, flt, prio, cons)
-	return call, c05Spec{opid, canon, "get"}
+	return call, c05Spec{OpID: opid, Canon: canon, Kind: "get"}
 }
 
 func wireGet(g *pb.Get, prio uint32) string {
@@ -378,7 +383,7 @@ func (g *c05Gen) genMutate(ctx context.Context, skipBatch bool) (hrpc.Call, c05S
 		mts = fmt.Sprint(tsv)
 	}
 	canon := fmt.Sprintf("mutate type=%s row=%q dur=%d ttl=%d ts=%s cells=%s", mtype, row, dur, ttl, mts, canonCells(cells))
-	return call, c05Spec{opid, canon, kind}
+	return call, c05Spec{OpID: opid, Canon: canon, Kind: kind}
 }
 
 func wireMutate(a *sim.Action) string {
@@ -447,6 +452,9 @@ func (g *c05Gen) genScan(ctx context.Context) (*hrpc.Scan, c05Spec) {
 	maxv := uint32(1)
 	if r.Intn(3) == 0 {
 		maxv = wide32(r, uint32(2+r.Intn(3)))
+		if r.Intn(6) == 0 {
+			maxv = 0
+		}
 		opts = append(opts, hrpc.MaxVersions(maxv))
 	}
 	flt := "-"
@@ -471,7 +479,7 @@ func (g *c05Gen) genScan(ctx context.Context) (*hrpc.Scan, c05Spec) {
 	}
 	canon := fmt.Sprintf("scan start=%q stop=%q rev=%v nrows=%d maxsize=%d cols=%s tr=[%d,%d) maxv=%d filter=%s cache=%v attrs=%s prio=%d close=false renew=false partials=true heartbeats=true",
 		start, stop, rev, nrows, maxSize, canonFamilies(fams), from, to, maxv, flt, cache, attrs, prio)
-	return sc, c05Spec{opid, canon, "scan"}
+	return sc, c05Spec{OpID: opid, Canon: canon, Kind: "scan", Prio: prio, NRows: nrows}
 }
 
 func wireScan(sr *pb.ScanRequest, prio uint32) string {
@@ -509,6 +517,7 @@ func wireScan(sr *pb.ScanRequest, prio uint32) string {
 // c05Collector gathers what the servers decoded, keyed by op id.
 type c05Collector struct {
 	mu      sync.Mutex
+	cont    map[string][]string // scan op id -> continuation requests "prio=.. nrows=.."
 	wire    map[string][]string
 	inMulti map[string]bool
 	multi   map[int]int64
@@ -559,6 +568,11 @@ func (col *c05Collector) tap(cl *sim.Cluster) func(*sim.Request) {
 			}
 			col.multi[len(req.Multi)]++
 			_ = n
+		case req.Scan != nil && req.Scan.Scan == nil && req.Scan.ScannerId != nil && !req.Scan.GetCloseScanner() && !req.Scan.GetRenew():
+			// a request that continues an open region scanner
+			if id := cl.ScanOpID(req); id != "" {
+				col.cont[id] = append(col.cont[id], fmt.Sprintf("prio=%d nrows=%d", req.Priority, req.Scan.GetNumberOfRows()))
+			}
 		case req.Scan != nil && req.Scan.Scan != nil:
 			if id := cl.ScanOpID(req); id != "" {
 				canon := wireScan(req.Scan, req.Priority)
@@ -588,7 +602,11 @@ func runC05Case(c *fw.Ctx, id string, cfg c05Config, seed int64, opsPer int) {
 	cl := sim.NewCluster(seed, 2)
 	defer cl.Close()
 	cl.CreateTable("t", [][]byte{[]byte("h"), []byte("p")}, func(i int) string { return []string{"rs0:16020", "rs1:16020", "rs0:16020"}[i] })
-	col := &c05Collector{wire: map[string][]string{}, multi: map[int]int64{}, inMulti: map[string]bool{}}
+	col := &c05Collector{wire: map[string][]string{}, cont: map[string][]string{}, multi: map[int]int64{}, inMulti: map[string]bool{}}
+	// some rows, so that scans need more than one request per region
+	for _, row := range []string{"a1", "a2", "a3", "b1", "i1", "i2", "i3", "q1", "q2", "q3", "z1"} {
+		cl.Load("t", cellsFor(row, 2))
+	}
 	cl.Tap = col.tap(cl)
 	if cfg.Wrapped {
 		cl.WrapConn = func(addr string, conn net.Conn) net.Conn { return &plainConn{Conn: conn, yield: cfg.Senders > 1} }
@@ -773,6 +791,15 @@ func runC05Case(c *fw.Ctx, id string, cfg c05Config, seed int64, opsPer int) {
 		}
 		if s.Kind == "scan" {
 			w = w[:1] // later open requests of a scan are the client's own (next region)
+			// ... but every request that continues a region scanner still carries
+			// the scan's priority and row count
+			for _, got := range col.cont[opid] {
+				c.Count("scan_continuations_checked", 1)
+				if want := fmt.Sprintf("prio=%d nrows=%d", s.Prio, s.NRows); got != want {
+					c.Violate(id, "wire:decoded-differs:scan-continuation", fmt.Sprintf("%s: a continuation request carries %s, the scan was built with %s [%s]", opid, got, want, cfg), cfg)
+					break
+				}
+			}
 		}
 		for _, got := range w {
 			want := s.Canon
@@ -832,7 +859,7 @@ func init() {
 		Floors: func(tier string) map[string]int64 {
 			return map[string]int64{"calls_checked": 5000, "calls_get": 500, "calls_put": 300, "calls_delete": 100, "calls_delete1": 100,
 				"calls_append": 100, "calls_increment": 100, "calls_scan": 100, "frames_decoded": 3000, "cases_concurrent_wrapped": 10,
-				"cases_snappy": 10, "cases_big_payload": 4, "connection_headers_checked": 100, "batches_with_a_call_cancelled_before_flush": 50}
+				"cases_snappy": 10, "cases_big_payload": 4, "connection_headers_checked": 100, "batches_with_a_call_cancelled_before_flush": 50, "scan_continuations_checked": 30}
 		},
 		Run: runC05,
 	})
